@@ -7,6 +7,7 @@ require (
 	github.com/ethereum/go-ethereum v1.9.15
 	github.com/gobwas/ws v1.0.2
 	github.com/gorilla/websocket v1.4.2
+	github.com/pborman/uuid v1.2.0
 	github.com/vipnode/vipnode-contract v0.2.1
 	github.com/vipnode/vipnode/v2 v2.0.0
 	pgregory.net/rapid v1.3.0
@@ -37,7 +38,6 @@ require (
 	github.com/karalabe/usb v0.0.0-20191104083709-911d15fe12a9 // indirect
 	github.com/mattn/go-runewidth v0.0.9 // indirect
 	github.com/olekukonko/tablewriter v0.0.4 // indirect
-	github.com/pborman/uuid v1.2.0 // indirect
 	github.com/peterh/liner v1.2.0 // indirect
 	github.com/pkg/errors v0.9.1 // indirect
 	github.com/prometheus/tsdb v0.10.0 // indirect
